@@ -889,6 +889,7 @@ impl<'b> InnerBucket<'b> {
                             Ok(i) => i,
                             _ => panic!("child branch not found"),
                         };
+                        let mut new_sibling_key = None;
                         if node.data.len() > 0 && branches.len() > 1 {
                             // add that child's data to a sibling node
                             let sibling_page = if index == 0 {
@@ -906,6 +907,15 @@ impl<'b> InnerBucket<'b> {
                             let mut sibling = sibling.borrow_mut();
                             // Copy this node's data over to it's sibling
                             sibling.data.merge(&mut node.data);
+                            if index == 0 {
+                                // Merged into the right sibling: its first key just changed, so the key
+                                // it is known by in the parent must change with it. Otherwise the stale
+                                // (too large) separator misroutes lookups once the parent itself is
+                                // merged to the left and this entry is no longer the first one.
+                                let first_key = sibling.data.first_key();
+                                sibling.original_key = Some(first_key.clone());
+                                new_sibling_key = Some(first_key);
+                            }
                             if !node.children.is_empty() {
                                 // Move all children nodes over to that sibling too
                                 for child in node.children.iter() {
@@ -922,6 +932,9 @@ impl<'b> InnerBucket<'b> {
                         if let NodeData::Branches(branches) = &mut parent.data {
                             // remove the child from this node
                             branches.remove(index);
+                            if let Some(key) = new_sibling_key {
+                                branches[0].set_key(key);
+                            }
                         }
                         if let Some(i) = parent.children.iter().position(|x| *x == node.id) {
                             parent.children.remove(i);
